@@ -12,6 +12,7 @@
 // See the License for the specific language governing permissions and
 // limitations under the License.
 
+#[cfg(not(foyer_verif))]
 use std::{
     collections::{HashSet, VecDeque},
     mem::offset_of,
@@ -20,6 +21,17 @@ use std::{
         atomic::{AtomicU8, Ordering},
     },
 };
+#[cfg(foyer_verif)]
+use std::{
+    collections::{HashSet, VecDeque},
+    mem::offset_of,
+    sync::{
+        Arc,
+        atomic::{Ordering},
+    },
+};
+#[cfg(foyer_verif)]
+use foyer_common::verif::sync::atomic::{AtomicU8};
 
 use foyer_common::{
     code::{Key, Value},
